@@ -160,17 +160,21 @@ class C20:
         gci = ("global", f"{DIMS}:get_coord_index", "func")
         tf = None
         lam_calls = []
+        cands = []
         for name, node in s.nested.items():
             fs = ctx.summ.of_node(s.module, node, f"{s.qual}.{name}", None, dict(s.env))
             cs = [e for e in fs.calls if e.term[1] == gci]
             if cs:
-                tf = (name, fs)
-                lam_calls = cs
+                cands.append((name, fs, cs))
         for lid, ls in s.lambdas.items():
             cs = [e for e in ls.calls if e.term[1] == gci]
             if cs:
-                tf = (f"<lambda {lid}>", ls)
-                lam_calls = cs
+                cands.append((f"<lambda {lid}>", ls, cs))
+        # the coordinate transform is the local function that looks up both components (a one-lookup wrapper it uses is not)
+        two = [c_ for c_ in cands if len(c_[2]) == 2]
+        pick = (two or cands)[-1] if (two or cands) else None
+        if pick is not None:
+            tf, lam_calls = (pick[0], pick[1]), pick[2]
         if tf is None or len(lam_calls) != 2:
             ctx.undec("R20.4", site, "coordinate transform with two get_coord_index calls not found")
         else:
